@@ -540,7 +540,7 @@ func receivesFrom(info *types.Info, comm ast.Stmt, pkg, typ, field string) bool 
 // to a channel — the watcher's completion channel ends the command.
 func ruleWatchSurvivesErrors(c *core.Ctx) {
 	const rule = "T6"
-	c.Rule(rule, "on the path from the scheduled regeneration to generateImpl no function terminates the process or forwards generateImpl's error to a channel: an invalid intermediate model state is reported and the watcher keeps running", 2)
+	c.Rule(rule, "on the path from the scheduled regeneration to generateImpl no function terminates the process or forwards generateImpl's error to a channel: an invalid intermediate model state is reported and the watcher keeps running", 1)
 	gi, _, _ := c.Func("internal/cmd", "generateImpl")
 	if gi == nil {
 		c.Undecided(rule, "anchor/internal/cmd.generateImpl", 0, "anchor function not found")
